@@ -4,7 +4,6 @@ import MythVerif.Proofs.WsQueueTsoStepF8
 namespace MythVerif.WsqTso
 open MythVerif.Wsq
 
-set_option maxHeartbeats 4000000 in
 theorem f_O_shift_pt7 (s : St) (lo0 hi0 off0 : Int) (rest : List Sto) (e b) : Inv s → s.opc = .pt7 e b →
     s.bufO = .shift lo0 hi0 off0 :: rest → Inv (applySto { s with bufO := rest } (.shift lo0 hi0 off0)) := by
   intro h hpc hb
@@ -16,7 +15,6 @@ theorem f_O_shift_pt7 (s : St) (lo0 hi0 off0 : Int) (rest : List Sto) (e b) : In
   case mwin => intro k hk _; exact hmw k hk
   tso_goalsO h hpc
 
-set_option maxHeartbeats 4000000 in
 theorem f_O_shift_pt8 (s : St) (lo0 hi0 off0 : Int) (rest : List Sto) (e b) : Inv s → s.opc = .pt8 e b →
     s.bufO = .shift lo0 hi0 off0 :: rest → Inv (applySto { s with bufO := rest } (.shift lo0 hi0 off0)) := by
   intro h hpc hb
@@ -28,7 +26,6 @@ theorem f_O_shift_pt8 (s : St) (lo0 hi0 off0 : Int) (rest : List Sto) (e b) : In
   case mwin => intro k hk _; exact hmw k hk
   tso_goalsO h hpc
 
-set_option maxHeartbeats 4000000 in
 theorem f_O_shift_pt9 (s : St) (lo0 hi0 off0 : Int) (rest : List Sto) : Inv s → s.opc = .pt9 →
     s.bufO = .shift lo0 hi0 off0 :: rest → Inv (applySto { s with bufO := rest } (.shift lo0 hi0 off0)) := by
   intro h hpc hb
